@@ -181,3 +181,29 @@ theorem scanAW_int (hidden valid : String → Bool) (n c : Nat) (l : List String
           simp [hh', hv', ih]
 
 end Navis.IoBatch
+
+namespace Navis.IoMeta
+
+/-! ### VoxelNeuron grid cache -/
+
+theorem voxInv_validate (f : VoxFacts) (s : VoxSt) (hgt : f.gridIsTemp = true) (h : VoxInv f s) :
+    VoxInv f (voxValidate f s) := by
+  unfold voxValidate
+  split
+  · intro g hg
+    simp [hgt] at hg
+  · exact h
+
+/-- after validation every hashed field's stamp is current -/
+theorem voxValidate_stamps (f : VoxFacts) (s : VoxSt) :
+    (f.hashedD = true → (voxValidate f s).sd = (voxValidate f s).d) ∧
+    (f.hashedV = true → (voxValidate f s).sv = (voxValidate f s).v) ∧
+    (voxValidate f s).d = s.d ∧ (voxValidate f s).v = s.v := by
+  unfold voxValidate
+  split
+  · simp
+  · rename_i hns
+    simp only [Bool.or_eq_true, Bool.and_eq_true, bne_iff_ne, ne_eq, not_or, not_and, Decidable.not_not] at hns
+    exact ⟨hns.1, hns.2, rfl, rfl⟩
+
+end Navis.IoMeta
